@@ -302,6 +302,21 @@ def scenario(ctx, case):
                 return tok
 
             server._retry.create_token = create_token
+            if case.get("forged_token"):
+                # someone else runs the same software: a Retry token made by another QuicRetryTokenHandler (another key) for the sender's own address,
+                # in a well-formed 1200-byte Initial (Initial keys are public).  The server never issued it: no connection state may appear.
+                from aioquic.quic.retry import QuicRetryTokenHandler
+
+                attacker = ("::ffff:203.0.113.77", 7777, 0, 0)
+                odcid, rscid = bytes.fromhex("a1a2a3a4a5a6a7a8"), bytes.fromhex("b1b2b3b4b5b6b7b8")
+                token = QuicRetryTokenHandler().create_token(attacker, odcid, rscid)
+                ck, _ = R.initial_keys(R.V1, rscid)
+                payload = R.encode_frames([{"name": "crypto", "offset": 0, "data": b"\x01\x00\x00\x04abcd"}])
+                hdr0 = R.build_long_header(R.V1, R.PT_INITIAL, rscid, bytes(8), 0, 2, 1100, token=token, length_size=2)
+                payload += bytes(1200 - 16 - len(hdr0) - len(payload))
+                hdr = R.build_long_header(R.V1, R.PT_INITIAL, rscid, bytes(8), 0, 2, len(payload), token=token, length_size=2)
+                pkt = R.protect(ck, hdr, 0, payload)
+                loop.call_later(case["forged_token"], loop.net.deliver, attacker, (loop.SERVER_HOST, 4433, 0, 0), pkt)
         mon = loop.create_task(monitor())
         tasks = [loop.create_task(client_main(ci, spec, loop)) for ci, spec in enumerate(case["clients"])]
         done, pending = await asyncio.wait(tasks, timeout=HORIZON)
@@ -413,7 +428,7 @@ def retry_spoof_strategy():
     quick = st.sampled_from([0.001, 0.01])
     spoof = st.tuples(st.sampled_from(["spoof", "spoof-port"]), st.sampled_from([0.001, 0.01, 0.1]), st.sampled_from([0.001, 0.02, 0.15])).map(list)
     head = st.tuples(quick, quick, spoof).map(lambda t: [["deliver", t[0], 0.001], ["deliver", t[1], 0.001], t[2]])
-    return st.tuples(case_strategy(), head).map(lambda t: dict(t[0], retry=True, clients=[dict(t[0]["clients"][0], start=0)], fates=t[1] + t[0]["fates"][:20]))
+    return st.tuples(case_strategy(), head, st.sampled_from([None, 0.05, 0.3])).map(lambda t: dict(t[0], retry=True, forged_token=t[2], clients=[dict(t[0]["clients"][0], start=0)], fates=t[1] + t[0]["fates"][:20]))
 
 
 def scenarios_task(ctx, examples, shard, directed=None):
